@@ -15,6 +15,8 @@ COMPARE = CODEC + ['Proofs/CompareP.v']
 HASH = CODEC + ['Proofs/HashP.v', 'Proofs/TreeP.v']
 STREAMS = ['Proofs/SinksP.v', 'Proofs/StreamsP.v']
 
+TYPED_M = CODEC + ['Proofs/CompareP.v', 'Proofs/MarshalP.v']
+
 PROPS = {
     'C02': dict(
         families=['codec'], reports=['codec_enc', 'codec_dec'], consts=True,
@@ -83,5 +85,34 @@ PROPS = {
         proof_files=CODEC + STREAMS,
         theorems='c15_writer_fault, c15_writer_fault_prefix, c15_reader_fault_never_done, c15_reader_fault_tokens, c15_reader_fault_offset, c15_source_fault_copy, c15_sink_fault_copy, c15_stream_fault_prefix, c15_clean_end_means_no_fault, c15_fail_*',
         assumptions=['an injected reader error is reported by a call of its own (a reader returning data together with a non-EOF error may lose the final token: io.ReadFull contract)'],
+    ),
+    'C08': dict(
+        families=['typed'], reports=['marshal'], consts=True,
+        proof_files=TYPED_M,
+        theorems='c08_scalar_*, c08_nan*, c08_nil_*, c08_bytes, c08_byte_array, c08_struct, c08_tuple, c08_registered_prefix, c08_map_sorted, c08_map_order_independent, c08_indirection_*, c08_bad_key_rejected, c08_tokens_wf, c08_total (+ c08_tied_keys_edge: the domain edge)',
+        assumptions=['cross-run determinism has no counterpart inside a Gallina function; for the Go code it is carried by the correspondence (every map rebuilt through another insertion/deletion history; Go randomises map iteration per map)',
+                     'domain: map keys whose key streams are pairwise distinct (distinct keys with equal streams, e.g. +0/-0 or two pointers to equal values, marshal in iteration order: c08_tied_keys_edge)',
+                     'slices.SortFunc is modelled as insertion sort (any sort returning a sorted permutation gives the same result on distinct keys: sorted_perm_eq)'],
+    ),
+    'C17': dict(
+        families=['typed'], reports=['marshal', 'unmarshal'],
+        proof_files=['Abstract/PathsAlias.v'],
+        theorems='c17_append_spec, c17_siblings_isolated, c17_taps_are_true_paths (for every growth policy of append)',
+        assumptions=['the aliasing model (Abstract/PathsAlias.v) is tied to the code through the marshal tap-log correspondence (Model/MarshalTaps.v evaluated in Coq) and, for unmarshal taps and error paths, through a Go-side reference path computation'],
+    ),
+    'C18': dict(
+        families=['heap'], reports=['heap'],
+        proof_files=['Proofs/HeapP.v'],
+        theorems='c18_terminates, c18_terminates_any_threshold, c18_revisit_is_cyclic, c18_cyclic_only_on_revisit, c18_acyclic_ok',
+        assumptions=['native stack depth is constant by construction of the continuation-passing marshaller; the model does not exhibit the Go stack',
+                     'graphs are built from one node struct, []any, map[string]any and self-typed slices / maps'],
+    ),
+    'C19': dict(
+        families=['conc'], reports=['conc'], race=True, pool_pattern=True, model_cases=False,
+        proof_files=['Abstract/PoolSchedules.v'],
+        theorems='c19_pool_exclusive, c19_init, c19_results_schedule_independent (all schedules, protocol model)',
+        level='proof',
+        assumptions=['PARTIAL: the theorems are about the interleaving model of the pool protocol; data races are a property of the Go memory model and of every memory access in the package, which no Gallina model exhibits: that half is sampled by stress runs under the race detector (G in 2..64, varied GOMAXPROCS, pools exhausted through the verif hooks), and the model\'s atomic-step assumption (Get .. defer Put, buffer not escaping) is checked syntactically on the source on every run',
+                     'sync.Map, sync.Pool and sync/atomic are trusted'],
     ),
 }
